@@ -582,7 +582,7 @@ def engine_submitmt(tier, seed):
             dict(threads=3, adds=2, sqn=2, sq_init=0x7FFFFFFF, mode='sqpoll', pre=0, random=2000)]
     if tier == 'thorough':
         runs += [dict(threads=2, adds=3, sqn=2, sq_init=0xFFFFFFFD, mode='sqpoll', pre=2),
-                 dict(threads=3, adds=2, sqn=2, sq_init=0, mode='sqpoll', pre=1, random=20000),
+                 dict(threads=3, adds=2, sqn=2, sq_init=0, mode='sqpoll', pre=1, random=5000, maxexec=150000),
                  dict(threads=2, adds=2, sqn=2, sq_init=0xFFFFFFFF, mode='enter', pre=2),
                  dict(threads=2, adds=2, sqn=1, sq_init=0, mode='enter', pre=2)]
     for i, rn in enumerate(runs):
